@@ -83,7 +83,9 @@ C = {
          "non-JSON objects refused; np.load o np.save = equal array, same dtype): additionally lineage ids, loaded "
          "measurements, every segmentation cell and the dtype, scale (symbolic voxel sizes), feature registry, ndim. "
          "A registered custom node feature round-trips through GEFF (loaded, not recomputed) and a display-name CSV. "
-         "Not claimed: GEFF segmentation round trips, subset exports. Bound: 3 / 4 node slots, single-key and per-axis position storage, 2D and 3D; "
+         "GEFF with segmentation: label array realised by solver forks (positions = true centroids), import with the "
+         "exported segmentation, same graph / values / cells; known finding F15 (refused when the last node's centroid "
+         "is outside its mask) is reported as KNOWN-FINDING. Not claimed: subset exports. Bound: 3 / 4 node slots, single-key and per-axis position storage, 2D and 3D; "
          "internal format 2-3 slots, 2x1x2 label array."),
  "C15": ("real filter_graph_with_ancestors + export_to_geff / export_to_csv up to the I/O boundary: exported node set = "
          "selection + ancestors, every edge among them, no missing parent, exported array cell = label if kept else 0",
@@ -131,7 +133,7 @@ m = dict(version=1, setup_cmd="./bootstrap.sh && ./check selftest",
                                       "proxies and symbolic models of networkx / numpy / dict bookkeeping")],
          checks=checks, not_applicable=na,
          notes="See DESIGN.md. Genuine defects found by the checks were repaired in /repo ('fix:' commits) and are listed in "
-               "known_findings.json as fixed; one open finding (F05, C13) is reported as KNOWN-FINDING. C12 and C14 are claimed for funtracks' own import / export logic "
+               "known_findings.json as fixed; two open findings (F05 for C13, F15 for C14) are reported as KNOWN-FINDING. C12 and C14 are claimed for funtracks' own import / export logic "
                "with the file readers / writers as stated I/O stubs (DESIGN 4, C12 and C14).")
 json.dump(m, open("/verif/MANIFEST.json", "w"), indent=1)
 print("claimed", len(checks), "not applicable", [d["property_id"] for d in na])
